@@ -1,8 +1,11 @@
 package c04
 
 import (
+	"bytes"
 	"encoding/json"
 	"fmt"
+	"net/http"
+	"net/http/httptest"
 	"strings"
 	"testing"
 	"time"
@@ -71,6 +74,9 @@ type Case struct {
 	Fails []FailRule `json:"fails"`
 	// Late: while a queue sleeps after its first failed execution, a tick for hook "late" arrives in that queue
 	Late bool `json:"late,omitempty"`
+	// LateAdmission: instead of a tick, an AdmissionReview request for the hook whose execution just failed
+	// arrives during the back-off (webhook requests are served outside the queues)
+	LateAdmission bool `json:"late_admission,omitempty"`
 }
 
 func gen(t *rapid.T) Case {
@@ -101,6 +107,9 @@ func gen(t *rapid.T) Case {
 		})
 	}
 	c.Late = rapid.Bool().Draw(t, "late")
+	if c.Late {
+		c.LateAdmission = rapid.IntRange(0, 2).Draw(t, "lateAdmission") == 0
+	}
 	return c
 }
 
@@ -133,6 +142,16 @@ func failBehaviour(kind string) vh.Behaviour {
 	return vh.Behaviour{Exit: 1}
 }
 
+// admissionRequest sends one AdmissionReview for the given webhook id through the operator's router.
+func admissionRequest(env *opkit.Env, id string) {
+	body, _ := json.Marshal(map[string]any{"apiVersion": "admission.k8s.io/v1", "kind": "AdmissionReview", "request": map[string]any{
+		"uid": "late-uid", "kind": map[string]any{"group": "", "version": "v1", "kind": "Pod"}, "resource": map[string]any{"group": "", "version": "v1", "resource": "pods"},
+		"operation": "CREATE", "namespace": "default", "name": "p", "object": map[string]any{"apiVersion": "v1", "kind": "Pod", "metadata": map[string]any{"name": "p", "namespace": "default"}}}})
+	req := httptest.NewRequest(http.MethodPost, "/hooks/"+id, bytes.NewReader(body))
+	req.Header.Set("Content-Type", "application/json")
+	env.Op.AdmissionWebhookManager.Handler.Router.ServeHTTP(httptest.NewRecorder(), req)
+}
+
 func runCase(c Case) (ev.Info, error) {
 	info := ev.Info{}
 	env, err := opkit.New("c04", kit.NewCluster("default"))
@@ -148,7 +167,9 @@ func runCase(c Case) (ev.Info, error) {
 		hookOf[b.Name] = "h"
 		dh.Schedules = append(dh.Schedules, hcfg.Sched{Name: b.Name, Crontab: crontabOf(b.Name), AllowFailure: hcfg.B(b.Allow), Group: b.Group, Queue: b.Queue})
 	}
-	do := hcfg.D{Schedules: []hcfg.Sched{{Name: "os", Crontab: crontabOf("os"), Queue: "main"}, {Name: "os1", Crontab: crontabOf("os1"), Queue: "q1"}}}
+	admRules := []hcfg.AdmRule{{Operations: []string{"CREATE"}, APIGroups: []string{""}, APIVersions: []string{"v1"}, Resources: []string{"pods"}}}
+	dh.Validating = []hcfg.Adm{{Name: "val-h.example.com", Rules: admRules}}
+	do := hcfg.D{Validating: []hcfg.Adm{{Name: "val-o.example.com", Rules: admRules}}, Schedules: []hcfg.Sched{{Name: "os", Crontab: crontabOf("os"), Queue: "main"}, {Name: "os1", Crontab: crontabOf("os1"), Queue: "q1"}}}
 	dblk := hcfg.D{Schedules: []hcfg.Sched{{Name: "bm", Crontab: crontabOf("bm"), Queue: "main"}, {Name: "b1", Crontab: crontabOf("b1"), Queue: "q1"}}}
 	// failure rules: first matching rule with budget applies
 	var hRules, oRules []vh.Rule
@@ -312,6 +333,7 @@ func runCase(c Case) (ev.Info, error) {
 			}
 			rs, _ := env.Tree.ReadLog()
 			failing := map[string]string{} // hook/seq of a scripted failure -> queue
+			hookOfExec := map[string]string{}
 			for _, r := range rs {
 				if r.Phase == "start" && r.Rule >= 0 && (r.Hook == "h" || r.Hook == "o") {
 					var arr []map[string]any
@@ -319,6 +341,7 @@ func runCase(c Case) (ev.Info, error) {
 					if len(arr) > 0 {
 						bn, _ := arr[0]["binding"].(string)
 						failing[fmt.Sprintf("%s/%d", r.Hook, r.Seq)] = bind[bn].Queue
+						hookOfExec[fmt.Sprintf("%s/%d", r.Hook, r.Seq)] = r.Hook
 					}
 				}
 			}
@@ -328,6 +351,10 @@ func runCase(c Case) (ev.Info, error) {
 				}
 				if qn, ok := failing[fmt.Sprintf("%s/%d", r.Hook, r.Seq)]; ok && !lateInjected[qn] {
 					lateInjected[qn] = true
+					if c.LateAdmission {
+						admissionRequest(env, "val-"+hookOfExec[fmt.Sprintf("%s/%d", r.Hook, r.Seq)]+"-example-com")
+						continue
+					}
 					env.Tick(crontabOf(map[string]string{"main": "lm", "q1": "l1"}[qn]))
 				}
 			}
@@ -346,6 +373,10 @@ func runCase(c Case) (ev.Info, error) {
 		env.WaitIdle(5*time.Millisecond, 40*time.Second)
 	}
 	for qn := range lateInjected {
+		if c.LateAdmission {
+			info.Labels = append(info.Labels, "admission-request-during-back-off")
+			continue
+		}
 		// the late task was appended to the tail of the queue: it runs after everything else of that queue
 		expected[qn] = append(expected[qn], exec{hook: "late", ctx: []string{map[string]string{"main": "lm", "q1": "l1"}[qn]}})
 		info.Labels = append(info.Labels, "task-queued-during-back-off")
@@ -371,6 +402,12 @@ func runCase(c Case) (ev.Info, error) {
 		_ = json.Unmarshal(r.Context, &arr)
 		var ctx []string
 		qn := ""
+		if len(arr) > 0 && (arr[0]["type"] == "Validating" || strings.HasPrefix(fmt.Sprint(arr[0]["binding"]), "val-")) {
+			if len(arr) != 1 {
+				return info, fmt.Errorf("OBSERVED: the execution of hook %s for an admission request carries %d binding contexts, it must carry its own only: %s", r.Hook, len(arr), string(r.Context))
+			}
+			continue
+		}
 		for _, m := range arr {
 			bn, _ := m["binding"].(string)
 			if g, ok := m["groupName"].(string); ok && g != "" {
@@ -418,7 +455,7 @@ func runCase(c Case) (ev.Info, error) {
 	return info, nil
 }
 
-const rule = "the real operator on a fake cluster; hook h with 2-4 schedule bindings (allowFailure, group, queue main/q1), hook o with one binding per queue, a blocker hook parked on a gate in both queues while 1-8 ticks are injected (so tasks pile up and get combined), 1-2 failure rules 'fail k times (k in 1..3) whenever binding X is in the contexts' by non-zero exit, malformed metrics, malformed patch or invalid patch operation; after the gate opens the per-queue sequence of executions in the hook log must equal the sequence prescribed by the property (combine model + retry until success unless every involved binding allows failure, nothing else of the queue in between), and every retry starts >= the initial delay after the failed run ended; in half of the cases a tick of a further hook is injected into a queue as soon as its first failing execution ended (a task arriving during the back-off sleep), expected to run last. Non-trivial: a failure occurred while >= 1 other task was queued behind it."
+const rule = "the real operator on a fake cluster; hook h with 2-4 schedule bindings (allowFailure, group, queue main/q1), hook o with one binding per queue, a blocker hook parked on a gate in both queues while 1-8 ticks are injected (so tasks pile up and get combined), 1-2 failure rules 'fail k times (k in 1..3) whenever binding X is in the contexts' by non-zero exit, malformed metrics, malformed patch or invalid patch operation; after the gate opens the per-queue sequence of executions in the hook log must equal the sequence prescribed by the property (combine model + retry until success unless every involved binding allows failure, nothing else of the queue in between), and every retry starts >= the initial delay after the failed run ended; in half of the cases a tick of a further hook is injected into a queue as soon as its first failing execution ended (a task arriving during the back-off sleep), expected to run last, or an AdmissionReview request for the hook whose execution just failed is served (its execution must carry only its own context and the queue must go on as if nothing happened). Non-trivial: a failure occurred while >= 1 other task was queued behind it."
 
 func TestRetry(t *testing.T) {
 	ev.Main(t, ev.Spec[Case]{Property: "C04", Part: "retry", Rule: rule, Gen: gen, Run: runCase, Journal: true})
